@@ -243,9 +243,16 @@ func runLayout(c *ctx, which string) {
 					}
 				}
 				if which == "C26" {
-					checkSizing(c, b.Filters.FieldBloomFilter, len(blockEntries.f), p, "block field", f.Ptr, h)
-					checkSizing(c, b.Filters.TokenBloomFilter, len(blockEntries.t), p, "block token", f.Ptr, h)
-					checkSizing(c, b.Filters.FieldTokenBloomFilter, len(blockEntries.ft), p, "block field-token", f.Ptr, h)
+					// a block is sized for the rate it records, and that is a rate some engine of the history was
+					// configured with (blocks written before a reconfiguration keep theirs; rebuilt ones get the new)
+					bp := b.Meta.BloomFalsePositiveRate
+					if h.RateSeen != nil && !h.RateSeen[bp] {
+						c.r.Add(Finding{Kind: "violation", Check: "sizing", Detail: fmt.Sprintf("block records false-positive rate %g; the engines of this history were configured with %v", bp, h.RateSeen), Replay: map[string]any{"ops": h.Ops, "file": f.Ptr}})
+						bp = p
+					}
+					checkSizing(c, b.Filters.FieldBloomFilter, len(blockEntries.f), bp, "block field", f.Ptr, h)
+					checkSizing(c, b.Filters.TokenBloomFilter, len(blockEntries.t), bp, "block token", f.Ptr, h)
+					checkSizing(c, b.Filters.FieldTokenBloomFilter, len(blockEntries.ft), bp, "block field-token", f.Ptr, h)
 				}
 			}
 			if engineWritten && which == "C17" {
@@ -255,6 +262,9 @@ func runLayout(c *ctx, which string) {
 				}
 			}
 			if engineWritten && which == "C26" {
+				if h.RateSeen != nil && h.RateSeen[meta.BloomFalsePositiveRate] {
+					p = meta.BloomFalsePositiveRate
+				}
 				checkSizing(c, meta.BloomFilters.FieldBloomFilter, len(fileEntries.f), p, "file field", f.Ptr, h)
 				checkSizing(c, meta.BloomFilters.TokenBloomFilter, len(fileEntries.t), p, "file token", f.Ptr, h)
 				checkSizing(c, meta.BloomFilters.FieldTokenBloomFilter, len(fileEntries.ft), p, "file field-token", f.Ptr, h)
@@ -274,6 +284,7 @@ func runLayout(c *ctx, which string) {
 	}
 	if which == "C26" {
 		c26Volume(c)
+		c26ReconfiguredMerge(c)
 	}
 	if which == "C17" {
 		c17CopiedExternal(c)
@@ -495,6 +506,61 @@ func c17EntryLess(c *ctx) {
 				want := bs.BloomEntryCounts{Fields: len(fields), Tokens: len(toks), FieldTokens: len(fts)}
 				if bm.BloomEntryCounts != want {
 					c.r.Add(Finding{Kind: "violation", Check: "entry-counts", Detail: fmt.Sprintf("block BloomEntryCounts %+v, distinct entries of its rows %+v", bm.BloomEntryCounts, want), Replay: map[string]any{"file": string(f.PointerBytes)}})
+				}
+			}
+		}
+		env.Stop()
+	}
+}
+
+// c26ReconfiguredMerge: blocks written under one false-positive rate are rebuilt by a merge run by an engine
+// re-opened with another rate: the merged block's filters meet the rate the block records (the merging
+// engine's), measured on absent tokens.
+func c26ReconfiguredMerge(c *ctx) {
+	r := NewRng(c.seed, 261)
+	for _, rates := range [][2]float64{{0.2, 0.001}, {0.01, 0.2}, {0.9, 0.01}} {
+		cfg := bs.DefaultBloomSearchEngineConfig()
+		cfg.BloomFalsePositiveRate = rates[0]
+		cfg.MaxBufferedTime = time.Hour
+		cfg.MaxRowGroupRows = 100000
+		env := NewEnv(cfg)
+		n := 600 + r.IntN(600)
+		for f := 0; f < 2; f++ {
+			var rows []map[string]any
+			for i := 0; i < n; i++ {
+				rows = append(rows, map[string]any{"v": fmt.Sprintf("tok%d-%d-%d", f, i, r.IntN(1<<30))})
+			}
+			env.IngestWait(rows)
+		}
+		env.Cfg.BloomFalsePositiveRate = rates[1]
+		env.Reopen()
+		_, merr := env.Eng.Merge(context.Background())
+		files, _ := AllFiles(env.Meta)
+		pub := env.Data.Published()
+		replay := map[string]any{"written_at_rate": rates[0], "merged_at_rate": rates[1], "tokens_per_block": n, "merge_err": fmt.Sprint(merr)}
+		c.r.Case(true, fmt.Sprint("reconfigured-merge", rates))
+		c.r.Hit("c26.reconfigured-merge")
+		for _, f := range files {
+			for _, bm := range f.Metadata.DataBlocks {
+				fl, err := bs.ReadDataBlockBloomFilters(bytes.NewReader(pub[string(f.PointerBytes)]), bm)
+				if err != nil || fl.TokenBloomFilter == nil {
+					continue
+				}
+				p := bm.BloomFalsePositiveRate
+				probes, fp := 20000, 0
+				for i := 0; i < probes; i++ {
+					if fl.TokenBloomFilter.TestString(fmt.Sprintf("absent-%d-%d", i, r.IntN(1<<30))) {
+						fp++
+					}
+				}
+				rate := float64(fp) / float64(probes)
+				limit := p*1.6 + 6*math.Sqrt(p*(1-p)/float64(probes)) + 0.002
+				c.r.Note("reconfigured merge %v: block of %d rows records rate %g, measured %.5f (limit %.5f)", rates, bm.Rows, p, rate, limit)
+				if rate > limit {
+					c.r.Add(Finding{Kind: "violation", Check: "fp-rate", Detail: fmt.Sprintf("a block of %d rows records false-positive rate %g but its token filter measures %.5f (tolerance %.5f)", bm.Rows, p, rate, limit), Replay: replay})
+				}
+				if bm.Rows == 2*n && p != rates[1] {
+					c.r.Add(Finding{Kind: "violation", Check: "sizing", Detail: fmt.Sprintf("the merged block records rate %g; the merging engine is configured with %g", p, rates[1]), Replay: replay})
 				}
 			}
 		}
